@@ -56,3 +56,12 @@ def run_boundary(rep, tier, check_fn, only=None, wrap=None):
             rep.add_case('boundary:' + name + ':' + c.key(), True, ['boundary_' + name], None)
             for clause, detail in out.failures:
                 rep.add_failure('format limits (%s): %s' % (name, clause), detail, c.to_json(), stage='format limits')
+
+
+def run_named(rep, named_cases, check_fn, stage, cls=None):
+    """deterministic, hand-laid-out cases [(name, case)] through a check's own oracle"""
+    for name, c in named_cases:
+        out = check_fn(c)
+        rep.add_case(stage + ':' + name + ':' + c.key(), True, [cls or stage.replace(' ', '_')] + sorted(out.classes or []), None)
+        for clause, detail in out.failures:
+            rep.add_failure('%s (%s): %s' % (stage, name, clause), detail, c.to_json(), stage=stage)
